@@ -810,6 +810,10 @@ def main(tier, replay=None):
                 pool.terminate()
                 for pid in pids:          # the evalbatch children of the killed workers run in scratch dirs named after the worker pid
                     os.system("pkill -9 -f 'scratch/c18[scpr]-%d-' >/dev/null 2>&1" % pid)
+                import glob
+                for pid in pids:
+                    for dd in glob.glob(os.path.join(common.SCRATCH_ROOT, "c18[scpr]-%d-*" % pid)):
+                        shutil.rmtree(dd, ignore_errors=True)
                 log("deadline reached after %d/%d jobs" % (done, len(jobs)))
                 break
     # ---- sort verdicts: one violation per (verdict, kind of entry point) with the smallest failing input; the entry
